@@ -45,6 +45,12 @@ def judge(ctx, vh, hists, files, name, stride=1):
         fp = os.path.join(d, "files.ndjson")
         core.run_vh(vh, ["ge-files", "-out", fp] + files, timeout=600)
         raw += open(fp).readlines()
+        # parameter edits on the shipped graphs themselves (their parameters carry their own defaults)
+        ep = os.path.join(d, "fileedits.ndjson")
+        core.run_vh(vh, ["ge-fileedits", "-out", ep, "-maxparams", "60"] + files, timeout=900)
+        lines = open(ep).readlines()
+        ctx.extra["shipped_graph_parameter_edits"] = len(lines)
+        raw += lines
         # one node of every registered type (chunks of 12 / 5 per application): save -> load -> save
         for chunk in (12, 5):
             ap = os.path.join(d, "alltypes%d.ndjson" % chunk)
